@@ -10,8 +10,8 @@ THEOREMS = ["C15.refinement", "C15.spec", "C15.share", "C15.exclusive_refuses", 
             "C15.exclusive_end", "C15.exclusive_end_ops", "C15.roe_tears_down", "C15.exit_exception", "C15.roe_off",
             "C15.reset_fresh", "C15.reset_yields_fresh", "C15.teardown_clears"]
 LEAN_MODULES = ["TbotVerif.Props.C15"]
-QUICK_N, THOROUGH_N = 20000, 120000
-QUICK_BUDGET, THOROUGH_BUDGET = 45, 600
+QUICK_N, THOROUGH_N = 15000, 120000
+QUICK_BUDGET, THOROUGH_BUDGET = 40, 600
 CASE_WALL = 20
 RULE = ("same generator as C14 (ctxgen.py) with 60% of the cases fault-free; a case is non-trivial when a request "
         "with a non-default flag (reset, exclusive, reset_on_error) or under keep-alive is made and at least two "
